@@ -3,6 +3,7 @@ import ScpiVerif.Drv.Parse
 import ScpiVerif.Spec.Float
 import ScpiVerif.Gen.Tables
 import ScpiVerif.Model.Dtostre
+import ScpiVerif.Model.BufFmt
 namespace ScpiVerif.Drv
 open ScpiVerif.Lexer
 
@@ -79,7 +80,13 @@ def runBufFmt (cfg : String) (inp : List String) (obs : List String) : Option Ve
           if withinDigits text ex prec (if custom then 1 else 1) (if custom then 1 else 2) then [] else
             [if !custom then "C16.printf_digits"
              else if withinDigits text ex prec 3 1 ∧ prec ≥ 14 then "C16.custom_formatter_accumulated_error" else "C16.custom_formatter_digits"]
-    pure { modelObs := " ".intercalate obs, rejects := c15 ++ c16, nontrivial := true,
+    -- printf build: the bounded-writer model on the text snprintf produces; own-formatter build: see kind 'e'
+    let modelObs :=
+      if custom then " ".intercalate obs else
+      let (b, r) := BufFmt.doubleToStr (BufFmt.Buf.fresh buflen) buflen oracle
+      let t := (b.cstring.getD [])
+      s!"{r} {hexOfBytes t} {if buflen == 0 then 0 else 1} {if b.oob || b.uninit then 0 else 1}"
+    pure { modelObs, rejects := c15 ++ c16, nontrivial := true,
            tags := [kind, if buflen == 0 then "len0" else if text.length + 1 == buflen then "truncated" else "fits", if exact.isNone then "nonfinite" else "finite"] }
   | "e", [bits, buflen, prec, flags] => do
     let bits ← parseHexNat bits; let buflen ← buflen.toNat?; let prec ← prec.toNat?; let flags ← flags.toNat?
@@ -121,7 +128,9 @@ def runBufFmt (cfg : String) (inp : List String) (obs : List String) : Option Ve
         | none => oracle
     let c15 := (if buflen == 0 then (if ret != 0 then ["C15.return_value"] else []) else common buflen) ++
       (if buflen > 0 ∧ text != full.take text.length then ["C15.text_not_a_prefix"] else [])
-    pure { modelObs := " ".intercalate obs, rejects := c15, nontrivial := true,
+    let (b, r) := BufFmt.numberToStr (BufFmt.Buf.fresh buflen) buflen special tag oracle unit
+    let modelObs := s!"{r} {hexOfBytes (b.cstring.getD [])} {if buflen == 0 then 0 else 1} {if b.oob || b.uninit then 0 else 1} {extra.headD "-"}"
+    pure { modelObs, rejects := c15, nontrivial := true,
            tags := ["n", if special then "special" else "number", if buflen == 0 then "len0" else if text.length + 1 == buflen then "truncated" else "fits"] }
   | _, _ => none
 
